@@ -217,6 +217,62 @@ theorem rev_discard (r : Rev) (h : r.inner.WF) (n : Nat) :
     ∃ r', r.discard n = .ok r' ∧ r'.inner.WF ∧ r'.limit = r.limit ∧ r'.iter = S.erase n r.iter :=
   Rev.discard_spec r h n
 
+/-- Without the precondition: `i in r` is "not in the wrapped set" for **every** `i`, so every id
+    `≥ limit` outside the wrapped set is reported as a member although iteration never yields it. -/
+theorem rev_contains_exact (r : Rev) (h : r.inner.WF) (i : Nat) :
+    r.contains i = .ok (!decide (i ∈ r.inner.iter)) := Rev.contains_exact r h i
+theorem rev_contains_out_of_range (r : Rev) (h : r.inner.WF) (i : Nat) (hi : r.limit ≤ i)
+    (hni : i ∉ r.inner.iter) : r.contains i = .ok true ∧ i ∉ r.iter := by
+  refine ⟨by rw [Rev.contains_exact r h i]; simp [hni], ?_⟩
+  rw [Rev.iter_spec r h, WM.Spec.IdSet.mem_invert]
+  omega
+/-- Without the precondition: `len(r)` is `limit - len(idset)` (wrong, possibly negative, as soon
+    as the wrapped set has a member `≥ limit`). -/
+theorem rev_len_exact (r : Rev) (h : r.inner.WF) :
+    r.len = .ok ((r.limit : Int) - (r.inner.iter.length : Int)) := Rev.len_exact r h
+/-- `add(n)` with `n ≥ limit`: only the wrapped set loses `n`; iteration is unchanged (but
+    `n in r` becomes true by `rev_contains_out_of_range`). -/
+theorem rev_add_out_of_range (r : Rev) (h : r.inner.WF) (n : Nat) (hn : r.limit ≤ n) :
+    ∃ r', r.add n = .ok r' ∧ r'.inner.WF ∧ r'.limit = r.limit ∧ r'.iter = r.iter ∧
+      r'.inner.iter = S.erase n r.inner.iter := Rev.add_out_of_range r h n hn
+
+/-- inherited `update` (ids below `limit`) and `difference_update`: union and difference -/
+theorem rev_update (r : Rev) (h : r.inner.WF) (o : Other) (ho : ∀ x ∈ o.items, x < r.limit) :
+    ∃ r', r.update o = .ok r' ∧ r'.inner.WF ∧ r'.limit = r.limit ∧ r'.iter = S.union r.iter o.items := by
+  rcases Rev.update_items o.items r h ho with ⟨r', h1, h2, h3, h4⟩
+  refine ⟨r', h1, h2, h3, ?_⟩
+  apply WM.Spec.IdSet.sorted_ext (rev_iter r' h2).2 (WM.Spec.IdSet.sorted_union (rev_iter r h).2)
+  intro x; rw [h4, WM.Spec.IdSet.mem_union]
+theorem rev_difference_update (r : Rev) (h : r.inner.WF) (o : Other) :
+    ∃ r', r.differenceUpdate o = .ok r' ∧ r'.inner.WF ∧ r'.limit = r.limit ∧ r'.iter = S.diff r.iter o.items := by
+  rcases Rev.differenceUpdate_items o.items r h with ⟨r', h1, h2, h3, h4⟩
+  refine ⟨r', h1, h2, h3, ?_⟩
+  apply WM.Spec.IdSet.sorted_ext (rev_iter r' h2).2 (WM.Spec.IdSet.sorted_diff (rev_iter r h).2)
+  intro x; rw [h4, WM.Spec.IdSet.mem_diff]
+
+/-- Full statement for the rest of the set API of `ReverseIdSet` — false: recorded findings. -/
+def rev_api_full : Prop := ∀ (r : Rev) (i : Int), r.inner.WF →
+  r.before i = .ok (S.before r.iter i) ∧ r.after i = .ok (S.after r.iter i) ∧
+    ∃ c, r.copy = .ok c ∧ c.iter = r.iter
+/-- What the code does instead: `before/after/copy` — and `union/intersection/difference/invert`,
+    which begin with `self.copy()` — raise `NotImplementedError` (inherited `DocIdSet` defaults). -/
+theorem rev_unsupported (r : Rev) (i : Int) (o : Other) (n : Nat) :
+    r.before i = .error .notImpl ∧ r.after i = .error .notImpl ∧ r.copy = .error .notImpl ∧
+      r.union o = .error .notImpl ∧ r.intersection o = .error .notImpl ∧
+      r.difference o = .error .notImpl ∧ r.invert n = .error .notImpl :=
+  ⟨rfl, rfl, rfl, rfl, rfl, rfl, rfl⟩
+example : ¬ rev_api_full := by
+  intro h
+  have := (h (Rev.mk (.sorted []) 3) 1 (by unfold Inner.WF Sorted; decide)).1
+  cases this
+
+/-- concrete witnesses of the out-of-range behaviour: `9 in ReverseIdSet({2}, 8)` although 9 is not
+    iterated; `len` of a set wrapping `{2, 11}` with limit 3 is 1 while two ids are iterated. -/
+example : (Rev.mk (.bits [4]) 8).contains 9 = .ok true ∧ 9 ∉ (Rev.mk (.bits [4]) 8).iter :=
+  rev_contains_out_of_range (Rev.mk (.bits [4]) 8) (by unfold Inner.WF; decide) 9 (by decide) (by decide)
+example : (Rev.mk (.sorted [2, 11]) 3).len = .ok 1 ∧ (Rev.mk (.sorted [2, 11]) 3).iter = [0, 1] :=
+  ⟨by rw [rev_len_exact _ (by unfold Inner.WF Sorted; decide)]; rfl, by decide⟩
+
 example : (Rev.mk (.sorted [2, 5]) 8).iter = [0, 1, 3, 4, 6, 7] := by decide
 example : Inner.WF (.sorted [2, 5]) := by unfold Inner.WF Sorted; decide
 
@@ -226,6 +282,20 @@ theorem multi_iter_sorted (m : Multi) (h : m.WF) : Sorted m.iter := Multi.sorted
 theorem multi_contains (m : Multi) (h : m.WF) (item : Nat) :
     m.contains item = .ok (decide (item ∈ m.iter)) := Multi.contains_spec m h item
 theorem multi_len (m : Multi) (h : m.WF) : m.len = .ok m.iter.length := Multi.len_spec m h
+
+/-- Full statement for `first/last/before/after/copy` of `MultiIdSet` — false: recorded findings. -/
+def multi_api_full : Prop := ∀ (m : Multi) (i : Int), m.WF →
+  m.first = .ok (S.first m.iter) ∧ m.last = .ok (S.last m.iter) ∧
+    m.before i = .ok (S.before m.iter i) ∧ m.after i = .ok (S.after m.iter i) ∧
+    ∃ c, m.copy = .ok c ∧ c.iter = m.iter
+/-- What the code does: they raise `NotImplementedError`, and so do `union/intersection/difference/
+    invert` (through `copy()`); `MultiIdSet` is documented read-only, so there are no mutators. -/
+theorem multi_unsupported (m : Multi) (i : Int) (o : Other) (n : Nat) :
+    m.first = .error .notImpl ∧ m.last = .error .notImpl ∧ m.before i = .error .notImpl ∧
+      m.after i = .error .notImpl ∧ m.copy = .error .notImpl ∧ m.union o = .error .notImpl ∧
+      m.intersection o = .error .notImpl ∧ m.difference o = .error .notImpl ∧
+      m.invert n = .error .notImpl :=
+  ⟨rfl, rfl, rfl, rfl, rfl, rfl, rfl, rfl, rfl⟩
 
 example : (Multi.mk [.sorted [1, 2], .sorted [0, 3]] [0, 10]).iter = [1, 2, 10, 13] := by decide
 example : (Multi.mk [.sorted [1, 2], .sorted [0, 3]] [0, 10]).WF where
@@ -252,5 +322,24 @@ example : (Multi.mk [.sorted [1, 2], .sorted [0, 3]] [0, 10]).WF where
     intro s hs
     simp only [List.mem_cons, List.not_mem_nil, or_false] at hs
     rcases hs with rfl | rfl <;> (unfold Inner.WF Sorted; decide)
+
+example : ¬ multi_api_full := by
+  intro h
+  have hwf : (Multi.mk [.sorted []] [0]).WF :=
+    { len_eq := rfl, nonempty := by decide, first := rfl,
+      mono := by
+        intro i j hij hj
+        simp only [List.length_cons, List.length_nil] at hj
+        have : j = 0 := by omega
+        subst this
+        have : i = 0 := by omega
+        subst this; simp,
+      fits := by intro k hk; simp at hk,
+      wf := by
+        intro s hs
+        simp only [List.mem_cons, List.not_mem_nil, or_false] at hs
+        subst hs; unfold Inner.WF Sorted; decide }
+  have := (h _ 0 hwf).1
+  cases this
 
 end WM.C20
